@@ -2,10 +2,10 @@
 """Copies the validated seeded changes from the sub-agents' output area into /verif/seeded/<id>/ and writes meta.json
 (which property, what the change needs in order to manifest, what was run to confirm it, which checks detect it)."""
 import json, os, shutil, sys, glob
-SRCS = ["/tmp/seed/out", "/tmp/seed/out2"]
+SRCS = ["/tmp/seed/out", "/tmp/seed/out2", "/tmp/seed/out3"]
 DST = "/verif/seeded"
 os.makedirs(DST, exist_ok=True)
-for d in sorted(sum([glob.glob(S + "/C??/[abcd]") for S in SRCS], [])):
+for d in sorted(sum([glob.glob(S + "/C??/[abcde]") for S in SRCS], [])):
     prop, x = d.split("/")[-2:]
     rp = os.path.join(d, "result.json")
     if not os.path.exists(rp) or not os.path.exists(os.path.join(d, "patch.diff")):
@@ -19,6 +19,12 @@ for d in sorted(sum([glob.glob(S + "/C??/[abcd]") for S in SRCS], [])):
     if not hist or hist[-1] != res:
         hist.append(res)
         json.dump(hist, open(hist_p, "w"), indent=1)
+    fin = os.path.join(DST, prop + x, "result.json")
+    if os.path.exists(fin):
+        fr = json.load(open(fin))
+        if fr not in hist:
+            hist.append(fr)
+            json.dump(hist, open(hist_p, "w"), indent=1)
     valid = None
     for h in hist:
         if "valid" in h and "demo_patched" in h:
@@ -26,9 +32,14 @@ for d in sorted(sum([glob.glob(S + "/C??/[abcd]") for S in SRCS], [])):
     if valid is None or not valid.get("valid"):
         print(sid, "not validated (skipped)", valid and valid.get("valid"))
         continue
+    keep = None
+    if os.path.exists(os.path.join(out, "result.json")):
+        keep = open(os.path.join(out, "result.json")).read()
     if os.path.isdir(out):
         shutil.rmtree(out)
     os.makedirs(out)
+    if keep is not None:
+        open(os.path.join(out, "result.json"), "w").write(keep)
     shutil.copy(os.path.join(d, "patch.diff"), out)
     shutil.copytree(os.path.join(d, "demo"), os.path.join(out, "demo"))
     shutil.copy(os.path.join(d, "demo_cmd.txt"), out)
